@@ -6,6 +6,7 @@
 // declines to resume is never flagged.
 #include "driver.h"
 #include "world.h"
+#include <memory>
 #include "peek.h"
 #include <algorithm>
 
@@ -37,6 +38,8 @@ struct Hist {
     std::vector<std::string> states;
     Fingerprint fp;
     bool setup_failed = false; std::string setup_detail;
+    std::vector<std::unique_ptr<TlsWorld> > held;        // connections kept open across later operations ("hold" ... "release")
+    void release(size_t i);
     int64_t now_s() { return vsim_mono_ms() / 1000; }
     explicit Hist(const Plan &p) : plan(p) {}
     void fail(const std::string &c, const std::string &x, const std::string &d) { if (viol_cls.empty()) { viol_cls = c; viol_ctx = x; viol_detail = d; } }
@@ -76,7 +79,7 @@ static Plan c14_gen(uint64_t seed, int tier, uint64_t index) {
         case 11: p.ops.push_back(Op("rmkey", (int64_t) (1 + r.below(4)))); break;
         case 12: p.ops.push_back(Op("foreign", c)); break;                                                                                          // full handshake with the foreign server: the sid now holds its ticket/psk
         case 13: case 14: p.ops.push_back(Op("edit", c, (int64_t) r.below(9), (int64_t) r.below(4096), (int64_t) r.below(256))); break;
-        case 15: p.ops.push_back(Op("dirty", c)); break;                                                                                            // resume and delete both sessions without closure
+        case 15: if (r.chance(1, 2)) { p.ops.push_back(Op("dirty", c)); } else if (r.chance(2, 3)) { p.ops.push_back(Op("hold", c, 0)); } else { p.ops.push_back(Op("release", (int64_t) r.below(4))); } break;                                                                                            // resume and delete both sessions without closure
         }
     }
     // make sure something tries to resume at the end
@@ -127,6 +130,16 @@ static std::vector<Plan> c14_fixed(int tier) {
                     p.cfg["kind"] = kind ? KK_EC256 : KK_RSA2048;
                     p.ops.push_back(Op("full", 0, ver, 7, tk)); p.ops.push_back(Op("fatal", 0, 1)); p.ops.push_back(Op("resume", 0, 0));
                     v.push_back(p);
+                }
+                {   // two connections share one cache entry: A stays open, B (resumed) is hit by a fatal alert and goes away, C tries the id while A is open and again after A closed
+                    for (int first_held = 0; first_held < 2; first_held++) {
+                        Plan p; p.seed = 158000 + (uint64_t) (((kind * 3 + ver) * 2 + tk) * 2 + first_held);
+                        p.cfg["kind"] = kind ? KK_EC256 : KK_RSA2048;
+                        if (first_held) { p.ops.push_back(Op("full", 0, ver, 7, tk)); p.ops.push_back(Op("hold", 0, 0)); }
+                        else { p.ops.push_back(Op("full", 0, ver, 7, tk)); p.ops.push_back(Op("hold", 0, 0)); p.ops.push_back(Op("hold", 0, 0)); }
+                        p.ops.push_back(Op("fatal", 0, 1)); p.ops.push_back(Op("resume", 0, 0)); p.ops.push_back(Op("release", 0)); p.ops.push_back(Op("resume", 0, 0));
+                        v.push_back(p);
+                    }
                 }
                 {   // ticket key removed, then resume
                     Plan p; p.seed = 156000 + (uint64_t) ((kind * 3 + ver) * 2 + tk);
@@ -187,7 +200,7 @@ void Hist::connect(int c, int server, const Op &op) {
             Rng r((uint64_t) op.c + 77);
             C.ver = (int) (op.b % 3); C.suite = pick_suite(r, C.ver, server_kind); C.tickets = (op.d & 1) != 0; C.ems = (op.d & 2) && C.ver != 2 ? -1 : 0; C.multi = (op.d & 4) != 0;
         }
-    } else if (mode == "resume" || mode == "fatal" || mode == "dirty") {
+    } else if (mode == "resume" || mode == "fatal" || mode == "dirty" || mode == "hold") {
         // optionally present the stored state under other parameters
         Rng r(derive(plan.seed, "reparam", (uint64_t) op.b * 31 + (uint64_t) c));
         if (op.b == 1 && mode == "resume") { C.suite = pick_suite(r, C.ver, server_kind); }
@@ -204,7 +217,9 @@ void Hist::connect(int c, int server, const Op &op) {
         static const uint16_t ECF[] = { TLS_ECDHE_ECDSA_WITH_AES_128_CBC_SHA, TLS_ECDHE_ECDSA_WITH_AES_256_CBC_SHA, TLS_ECDHE_ECDSA_WITH_AES_128_CBC_SHA256, TLS_ECDHE_ECDSA_WITH_AES_256_CBC_SHA384, TLS_ECDHE_ECDSA_WITH_AES_128_GCM_SHA256, TLS_ECDHE_ECDSA_WITH_AES_256_GCM_SHA384 };
         for (int i = 0; i < 6; i++) { uint16_t x = server_kind == KK_RSA2048 ? RSAF[i] : ECF[i]; if (x != C.suite && (C.ver == 1 || !suite_min_tls12(x))) { pc.suites.push_back(x); } }
     }
-    TlsWorld w; w.adopt(skeys[server], C.keys, C.sid, pc);
+    std::unique_ptr<TlsWorld> wp(new TlsWorld()); TlsWorld &w = *wp;
+    w.adopt(skeys[server], C.keys, C.sid, pc);
+    bool hold = mode == "hold";                           // like "resume", but the connection stays open until a "release"
     bool corrupt = mode == "fatal";
     int corrupt_dir = (int) (op.b & 1);
     bool armed = false;
@@ -264,7 +279,7 @@ void Hist::connect(int c, int server, const Op &op) {
         if (corrupt) { armed = true; }
         w.cli->app_send(a.data(), a.size()); w.srv->app_send(b.data(), b.size()); w.pump();
         srv_alert = w.srv->request_close || w.srv->got_fatal_alert || w.srv->got_error || w.cli->request_close;
-        if (mode != "dirty" && !corrupt) { w.cli->app_close(); w.pump(); }
+        if (mode != "dirty" && !corrupt && !hold) { w.cli->app_close(); w.pump(); }
     }
     // ---------------- update the model with whatever the client now holds
     SidSnap after = snap_sid(C.sid);
@@ -283,9 +298,19 @@ void Hist::connect(int c, int server, const Op &op) {
         if (srv_alert && !before.id.empty()) { auto it = issued.find("id:" + before.id); if (it != issued.end()) { it->second.invalidated = true; } }
     }
     last_edit.clear();
+    if (hold && ok) { w.filter = nullptr; fp.add(w.fingerprint()); held.push_back(std::move(wp)); counters["conn.held_open"]++; return; }
     w.close_sessions();
     fp.add(w.fingerprint());
     w.teardown();
+}
+
+void Hist::release(size_t i) {
+    if (i >= held.size()) { return; }
+    TlsWorld &w = *held[i];
+    if (w.cli && w.cli->alive()) { w.cli->app_close(); w.pump(); }
+    w.close_sessions(); fp.add(w.fingerprint()); w.teardown();
+    held.erase(held.begin() + (long) i);
+    counters["conn.released"]++;
 }
 
 void Hist::edit(int c, const Op &op) {
@@ -313,7 +338,8 @@ void Hist::edit(int c, const Op &op) {
 void Hist::run() {
     for (auto &op : plan.ops) {
         if (!viol_cls.empty()) { break; }
-        if (op.k == "full" || op.k == "resume" || op.k == "fatal" || op.k == "dirty") { connect((int) ((uint64_t) op.a % NCLIENTS), 0, op); }
+        if (op.k == "release") { if (!held.empty()) { release((size_t) ((uint64_t) op.a % held.size())); } }
+        else if (op.k == "full" || op.k == "resume" || op.k == "fatal" || op.k == "dirty" || op.k == "hold") { connect((int) ((uint64_t) op.a % NCLIENTS), 0, op); }
         else if (op.k == "foreign") { connect((int) ((uint64_t) op.a % NCLIENTS), 1, op); }
         else if (op.k == "advance") { vsim_clock_advance_ms(op.a); counters["clock_advanced"]++; }
         else if (op.k == "fill") {
@@ -347,6 +373,7 @@ void Hist::run() {
             }
         } else if (op.k == "edit") { edit((int) ((uint64_t) op.a % NCLIENTS), op); }
     }
+    while (!held.empty()) { release(0); }
 }
 
 static RunResult c14_exec(const Plan &p) {
